@@ -132,6 +132,9 @@ type whoEntry struct {
 	// the same function: initialisation, not mutation), "from:<pkg.Type.Method>" (the value returned by
 	// that call, e.g. the mq subscription handle). Set only where the shape, not the writer, carries the rule.
 	Shape []string
+	// Readers, when set, lists the only functions that may load the field (a cache of a derived value that is
+	// valid for one consumer only: the encoding of the latest protocol).
+	Readers map[string]string
 }
 
 func ruleWho(entries []whoEntry) func(c *Ctx) {
@@ -141,6 +144,33 @@ func ruleWho(entries []whoEntry) func(c *Ctx) {
 			if f == nil {
 				c.undecided(e.Field, "anchor", "-", "field not found")
 				continue
+			}
+			// who may read
+			if len(e.Readers) > 0 {
+				readers := map[string]string{}
+				for nm, why := range e.Readers {
+					readers[c.P.FnNameOf(nm)] = why
+				}
+				byFn := map[*ssa.Function]ssa.Instruction{}
+				for _, ld := range c.P.loads[f] {
+					if li, ok := ld.(ssa.Instruction); ok && byFn[li.Parent()] == nil {
+						byFn[li.Parent()] = li
+					}
+				}
+				var fns []*ssa.Function
+				for g := range byFn {
+					fns = append(fns, g)
+				}
+				sort.Slice(fns, func(i, j int) bool { return fnName(fns[i]) < fnName(fns[j]) })
+				for _, g := range fns {
+					c.inst(1)
+					owner, ok := c.P.ownedBy(g, func(nm string) bool { _, has := readers[nm]; return has })
+					if ok {
+						c.ok(e.Field, "read by "+owner, c.P.InstrPos(byFn[g]), readers[owner])
+					} else {
+						c.viol(e.Field, "read by "+fnName(g), c.P.InstrPos(byFn[g]), fmt.Sprintf("%s is not a listed reader of %s (listed: %s): the cached value is only valid for the listed consumer", fnName(g), e.Field, strings.Join(sortedKeys(boolMap(readers)), ", ")))
+					}
+				}
 			}
 			// the table names functions as they were; a renamed writer keeps its entry
 			resolved := map[string]string{}
